@@ -137,3 +137,8 @@ def run(ctx, facts):
             ctx.violation("WRITERS", fid, "k_vec written", hirq.loc(w), "%s writes the registers: `%s`" % (fid, hirq.show(w)[:60]))
     ctx.ok("WRITERS", "SetSketcher", "k_vec written only in %s (%d write sites)" % (okw, n), "")
     sib(ctx, facts)
+    from . import C07
+    C07.ctor_sib(ctx, facts)
+    C04.regvalue_rule(ctx, facts)
+    ctx.rule("EXIT", C04.RULES["EXIT"])
+    C04._exit_setsketch(ctx, facts)
